@@ -7,7 +7,7 @@ from harness.core import C, S, Some, Z
 from harness.memrun import DEFAULT, TICK, cmd_to_coq, dec, enc, res_to_coq, val_to_coq
 
 KEYS = ["a", "b", "c", "ab"]
-VALUES = [1, 2, 7, "x", "y"]
+VALUES = [1, 2, 7, 0, 0, "x", "y"]
 
 
 class Boom(Exception):
@@ -28,7 +28,7 @@ def gen_cmd(rng, keys, reads=True):
         return ["get_match", rng.choice(["a", "", "b"])]
     if r < 0.55: return ["set", k, enc(rng.choice(VALUES)), ttl, rng.choice([None, None, None, True, False])]
     if r < 0.62: return ["set_many", [[kk, enc(rng.choice(VALUES))] for kk in rng.sample(keys, rng.randint(1, 2))], ttl]
-    if r < 0.74: return ["incr", k, rng.choice([1, 1, 2]), ttl]
+    if r < 0.74: return ["incr", k, rng.choice([1, 1, 2, -1, -1, -2]), ttl]
     if r < 0.84: return ["delete", k]
     if r < 0.88: return ["delete_many", [rng.choice(keys) for _ in range(rng.randint(1, 2))]]
     if r < 0.93: return ["delete_match", rng.choice(["a", "b", ""])]
